@@ -416,6 +416,7 @@ func init() {
 				}
 				runVals(k, vals, 0)
 				c16Positions(c, 9000, k, k.boundaries(1))
+				c16StreamBoundary(c, 9100, k, []*big.Int{k.max(), k.min(), new(big.Int).Quo(k.max(), big.NewInt(3)), new(big.Int).Quo(k.min(), big.NewInt(7)), big.NewInt(10), big.NewInt(-10), big.NewInt(99)})
 				c.Sample(map[string]any{"family": "boundary/exhaustive", "kind": k.name, "values": len(vals), "first": vals[0].String(), "last": vals[len(vals)-1].String()})
 			case c.Idx < 22:
 				k := intKinds[c.Idx-11]
@@ -693,4 +694,61 @@ func c16Positions(c *rt.Ctx, sub int, k intKind, vals []*big.Int) {
 	}
 	c.Obs("member_position_values:"+k.name, int64(len(vals)))
 	c.Obs("member_position_types", int64(len(types)))
+}
+
+// c16StreamBoundary: an integer literal that straddles the end of the stream decoder's buffer (511,
+// 1023 bytes: the refill reallocates), at every split position of the literal; plain, member and
+// element positions. The value must be the literal's, and Decoder must agree with Unmarshal.
+func c16StreamBoundary(c *rt.Ctx, sub int, k intKind, vals []*big.Int) {
+	if !c.Cur(sub, fmt.Sprintf("stream buffer boundary inside a literal, %s", k.name)) {
+		return
+	}
+	st := reflect.StructOf([]reflect.StructField{{Name: "P", Type: reflect.TypeOf(""), Tag: `json:"p"`}, {Name: "V", Type: k.t, Tag: `json:"v"`}, {Name: "W", Type: reflect.PtrTo(k.t), Tag: `json:"w"`}})
+	sl := reflect.SliceOf(k.t)
+	n := 0
+	for _, b := range vals {
+		lit := b.String()
+		if len(lit) < 2 || b.Cmp(k.min()) < 0 || b.Cmp(k.max()) > 0 {
+			continue
+		}
+		for _, boundary := range []int{511, 1023} {
+			for j := 1; j < len(lit); j++ {
+				docs := []struct {
+					doc string
+					t   reflect.Type
+					get func(v reflect.Value) reflect.Value
+				}{
+					{"[" + strings.Repeat(" ", boundary-1-j) + lit + ",7]", sl, func(v reflect.Value) reflect.Value { return v.Index(0) }},
+					{`{"p":"` + strings.Repeat("p", boundary-13-j) + `","v":` + lit + `,"w":3}`, st, func(v reflect.Value) reflect.Value { return v.Field(1) }},
+					{`{"p":"` + strings.Repeat("p", boundary-13-j) + `","w":` + lit + `,"v":3}`, st, func(v reflect.Value) reflect.Value { return v.Field(2).Elem() }},
+				}
+				for di, d := range docs {
+					sv, bv := reflect.New(d.t), reflect.New(d.t)
+					var serr, berr error
+					pan, msg, _ := rt.Guard(func() {
+						serr = gojson.NewDecoder(strings.NewReader(d.doc)).Decode(sv.Interface())
+						berr = gojson.Unmarshal([]byte(d.doc), bv.Interface())
+					})
+					c.Eval(2)
+					n++
+					bad := ""
+					switch {
+					case pan:
+						bad = "panic: " + msg
+					case serr != nil || berr != nil:
+						bad = fmt.Sprintf("Decoder err=%v Unmarshal err=%v", serr, berr)
+					case intText(d.get(sv.Elem())) != lit:
+						bad = "Decoder stored " + intText(d.get(sv.Elem()))
+					case intText(d.get(bv.Elem())) != lit:
+						bad = "Unmarshal stored " + intText(d.get(bv.Elem()))
+					}
+					if bad != "" {
+						c.Violate(rt.Violation{Monitor: "int-decode", Entry: "Decoder", Kind: "literal-across-refill", Ctx: fmt.Sprintf("%s:%s:%s", k.name, []string{"element", "member", "pointer-member"}[di], magClass(b, k)),
+							Detail: fmt.Sprintf("%s literal %s split after %d digit(s) at byte %d: %s", k.name, lit, j, boundary, bad), Input: lit, Sub: sub})
+					}
+				}
+			}
+		}
+	}
+	c.Obs("stream_boundary_literal_decodes", int64(n))
 }
